@@ -49,3 +49,24 @@ impl Mock {
         *self.now.write().expect("lock poisoned") += amount;
     }
 }
+
+// Verification hooks (compiled only with `--cfg mini_moka_verif`).
+#[cfg(mini_moka_verif)]
+impl Clock {
+    pub(crate) fn verif_from_mock(mock: &Arc<Mock>) -> Clock {
+        Clock {
+            mock: Some(Arc::clone(mock)),
+        }
+    }
+}
+
+#[cfg(mini_moka_verif)]
+impl Mock {
+    pub(crate) fn verif_now(&self) -> Instant {
+        *self.now.read().expect("lock poisoned")
+    }
+
+    pub(crate) fn verif_increment(&self, amount: std::time::Duration) {
+        *self.now.write().expect("lock poisoned") += amount;
+    }
+}
